@@ -74,6 +74,7 @@ def cases(tier, seed):
         for parent in plane_trees(N):
             for cplx in (False, True):
                 yield {"k": "roundtrip-tree", "parent": parent, "complex": cplx}
+                yield {"k": "roundtrip-tree", "parent": parent, "complex": cplx, "user_attr": True}      # dump / load with an extra user attribute
 
 
 # ------------------------------------------------------------------------------------------------ crash part
@@ -443,8 +444,16 @@ def run_roundtrip_tree(desc, seed):
     d = tempfile.mkdtemp(prefix="c14tt_")
     try:
         p = os.path.join(d, "t.npz")
-        t.dump(p)
-        l = TTNS.load(tree, p)
+        if desc.get("user_attr"):
+            # the documented way to carry an additional attribute through the file: the mandatory entries (prefactor) must still be there
+            t.tag = 42
+            t.dump(p, other_attrs=["tag"])
+            l = TTNS.load(tree, p, other_attrs=["tag"])
+            if int(np.asarray(l.tag)) != 42:
+                add(viol, "C14:roundtrip-tree:user-attribute", f"tree {parent}: attribute 'tag' came back as {l.tag!r}")
+        else:
+            t.dump(p)
+            l = TTNS.load(tree, p)
         for i, (a, b) in enumerate(zip(t.node_list, l.node_list)):
             if a.tensor.dtype != b.tensor.dtype or not np.array_equal(a.tensor, b.tensor):
                 add(viol, "C14:roundtrip-tree:tensor", f"tree {parent}: node {i} differs after load")
